@@ -638,11 +638,11 @@ def make_cases(ctx):
             klass += '-' + sub
         else:
             klass = rng.choice(['plain', 'plain', 'arity3', 'barrier', 'measure', 'preblocked', 'mixed'])
-            big = rng.random() < 0.25
+            big = rng.random() < ctx.n(15, 25) / 100.0
             width = rng.randint(9, 20) if big else rng.randint(2, 8)
             depth = rng.randint(1, ctx.n(60, 300)) if big or rng.random() < 0.3 else rng.randint(1, 14)
             nops = max(1, depth * width // 2)
-            nops = min(nops, ctx.n(700, 3000))
+            nops = min(nops, ctx.n(500, 3000))
             p3 = 0.0 if klass in ('plain',) else rng.choice([0.1, 0.3, 0.6])
             pbar = rng.choice([0.03, 0.1, 0.25]) if klass in ('barrier', 'measure', 'mixed') else 0.0
             pre = 0.15 if klass in ('preblocked', 'mixed') else 0.0
@@ -674,7 +674,7 @@ def run(ctx: vf.Ctx):
                 'single op, gates wider than the block, idle qudits). Per case: QuickPartitioner vs the extracted Coq model '
                 '(grid compared up to commutation on disjoint qudits), and the extracted verified check_partition + an '
                 'independent python oracle on the output of every partitioner that accepts the input. non-trivial = '
-                'at least 2 operations; distinct by canonical (circuit, block size)' % ctx.n(700, 3000))
+                'at least 2 operations; distinct by canonical (circuit, block size)' % ctx.n(500, 3000))
     ctx.assumptions += [
         'Circuit.append/pop/insert place operations so that iteration order respects per-qudit order (C04/C05); the Quick model keeps the partitioned circuit as a list and outputs are compared up to commutation of operations on disjoint qudits',
         'the order of `for p in partitioned_circuit.rear` (a set) does not change the merged block up to commutation (argued in design_notes/C08.md, validated by every correspondence case)',
